@@ -679,6 +679,67 @@ func c12FixupAttrs(c *Ctx, idx int, r *Rng) {
 		c.R.Add(Finding{Kind: "oracle", What: "migrate import --fixup changed the number of commits", Case: enc})
 		return
 	}
+	// the model's decision per path: the lines that speak about `filter`, in Git's reading order, with
+	// "does this line's pattern match the path" asked of Git itself one line at a time (a probe attribute)
+	type aline struct{ loc, pat, val string } // val: "" = unset/unspecified
+	var alines []aline
+	collect := func(loc, text string) {
+		for _, l := range strings.Split(text, "\n") {
+			f := strings.Fields(l)
+			if len(f) < 2 {
+				continue
+			}
+			for _, a := range f[1:] {
+				switch {
+				case strings.HasPrefix(a, "filter="):
+					alines = append(alines, aline{loc, f[0], strings.TrimPrefix(a, "filter=")})
+				case a == "-filter" || a == "!filter":
+					alines = append(alines, aline{loc, f[0], ""})
+				}
+			}
+		}
+	}
+	collect("", root)
+	collect("sub", nested)
+	modelConv := map[string]string{}
+	{
+		probe := filepath.Join(base, "probe")
+		matches := make([]map[string]string, len(alines))
+		for k, al := range alines {
+			os.RemoveAll(probe)
+			if gitInit(probe) != nil {
+				continue
+			}
+			os.MkdirAll(filepath.Join(probe, al.loc), 0o755)
+			os.WriteFile(filepath.Join(probe, al.loc, ".gitattributes"), []byte(al.pat+" probe\n"), 0o644)
+			matches[k] = checkAttrOf(probe, "probe", files)
+		}
+		var qs []string
+		for _, f := range files {
+			var ts []string
+			for k, al := range alines {
+				m := "0"
+				if matches[k] != nil && matches[k][f] == "set" {
+					m = "1"
+				}
+				v := "none"
+				if al.val != "" {
+					v = hx([]byte(al.val))
+				}
+				ts = append(ts, m+":"+v)
+			}
+			qs = append(qs, "C12 fixupattr "+joinOrDash(ts))
+		}
+		if ans, err := c.Or.Ask(qs); err == nil {
+			for k, f := range files {
+				modelConv[f] = ans[k]
+				// the model's reading of the attribute files agrees with Git's own lookup (spec validation)
+				if (ans[k] == "1") != (eff[f] == "lfs") {
+					c.R.Add(Finding{Kind: "diff", What: "effective filter attribute: the model's last-matching-line rule disagrees with git check-attr", Case: enc, Impl: f + " check-attr=" + eff[f], Model: ans[k] + " <= " + qs[k], Broken: "corr.C12.fixupattr"})
+				}
+			}
+		}
+	}
 	cache := map[string][]byte{}
 	for i, nid := range newOrder {
 		for _, e := range newH[nid].tree {
@@ -688,6 +749,10 @@ func c12FixupAttrs(c *Ctx, idx int, r *Rng) {
 			}
 			b, isPtr, have := c12Resolve(w, cache, e.blob)
 			wantPtr := eff[e.path] == "lfs"
+			if mc, ok := modelConv[e.path]; ok && (mc == "1") != isPtr {
+				c.R.Add(Finding{Kind: "diff", What: "migrate import --fixup: representation differs from the model's decision (last matching filter line)", Case: enc,
+					Impl: fmt.Sprintf("commit %d: %s pointer=%v", i+1, e.path, isPtr), Model: mc, Broken: "corr.C12.fixupattr"})
+			}
 			if wantPtr {
 				c.R.Count("import.fixup-attrs.selected")
 			} else if strings.HasSuffix(e.path, ".bin") {
